@@ -180,13 +180,13 @@ func (s *ScriptedServer) serveControl(ctl *sctl) {
 			if kind == "never" {
 				continue
 			}
-			go func(kind string) {
-				if delay > 0 {
-					time.Sleep(delay)
-				}
-				s.log(SEvent{Kind: "Resp:" + kind, Name: resp.ProxyName, Conn: ctl.id})
-				_ = ctl.send(resp)
-			}(kind)
+			// like frps, registrations are handled one after the other on the control's reader: a slow
+			// ("late") answer delays everything behind it, answers are never reordered
+			if delay > 0 {
+				time.Sleep(delay)
+			}
+			s.log(SEvent{Kind: "Resp:" + kind, Name: resp.ProxyName, Conn: ctl.id})
+			_ = ctl.send(resp)
 		case *msg.CloseProxy:
 			s.log(SEvent{Kind: "CloseProxy", Name: v.ProxyName, Conn: ctl.id})
 		case *msg.Ping:
@@ -245,6 +245,34 @@ func (s *ScriptedServer) Registered() map[string]*msg.NewProxy {
 		}
 	}
 	return out
+}
+
+// Intent replays the log by what the client SENT: name -> last NewProxy not followed by a CloseProxy,
+// with the server's verdict on it ("ok", "err", "pending" = not answered).
+func (s *ScriptedServer) Intent() (map[string]*msg.NewProxy, map[string]string) {
+	intent := map[string]*msg.NewProxy{}
+	state := map[string]string{}
+	for _, e := range s.Events() {
+		switch e.Kind {
+		case "NewProxy":
+			intent[e.Name] = e.Msg.(*msg.NewProxy)
+			state[e.Name] = "pending"
+		case "Resp:ok", "Resp:late":
+			if _, ok := intent[e.Name]; ok {
+				state[e.Name] = "ok"
+			}
+		case "Resp:err":
+			if _, ok := intent[e.Name]; ok {
+				state[e.Name] = "err"
+			}
+		case "CloseProxy":
+			delete(intent, e.Name)
+			delete(state, e.Name)
+		case "ControlClosed":
+			intent, state = map[string]*msg.NewProxy{}, map[string]string{}
+		}
+	}
+	return intent, state
 }
 
 // DropControls closes every control connection (the listener stays).
